@@ -398,3 +398,222 @@ def op_generate_batch(task):
 
 
 OPS["generate_batch"] = op_generate_batch
+
+
+# ---------------------------------------------------------------------------------------------------------------------
+# C14: instrumented concurrency (wrappers applied from outside, at the shared-state touch points)
+
+
+class _Conc:
+    """Recorder + optional deterministic scheduler shared by the wrappers."""
+
+    def __init__(self):
+        import threading
+
+        self.tl = threading.local()
+        self.rec_lock = threading.Lock()
+        self.events = []
+        self.mode = "free"
+        self.sem = {}
+        self.arrived = None
+        self.done = set()
+
+    def tid(self):
+        return getattr(self.tl, "tid", None)
+
+    def point(self, label, **kw):
+        t = self.tid()
+        if t is None:
+            return
+        with self.rec_lock:
+            self.events.append({"ev": label, "t": t, **kw})
+        if self.mode == "sched":
+            self.arrived.release()
+            self.sem[t].acquire()
+
+
+_conc = None
+
+
+def _install_conc():
+    """Replace module attributes of the tree under test by recording wrappers (idempotent)."""
+    global _conc
+    if _conc is not None:
+        return _conc
+    import tensora.compile._compile_cffi as ccffi
+    import tensora.compile._porcelain as porc
+    import tensora.compile._tensor_method as tmod
+
+    C = _conc = _Conc()
+    orig_cached = porc.cachable_tensor_method
+
+    def cached(problem, backend):
+        C.point("lookup")
+        C.tl.compiled = False
+        r = orig_cached(problem, backend)
+        if C.tl.compiled:
+            C.point("insert")
+        return r
+
+    cached.cache_clear = orig_cached.cache_clear
+    cached.cache_info = orig_cached.cache_info
+    porc.cachable_tensor_method = cached
+
+    orig_init = tmod.TensorMethod.__init__
+
+    def init(self, problem, backend=tmod.BackendCompiler.llvm):
+        C.point("compile")
+        orig_init(self, problem, backend)
+        inner = self._evaluate
+        me = self
+
+        def wrapped(*a):
+            C.point("enter", kid=id(me), sid=id(a[0]))
+            r = inner(*a)
+            C.point("exit")
+            return r
+
+        self._evaluate = wrapped
+        C.tl.compiled = True
+        C.point("jit", kid=id(self))
+
+    tmod.TensorMethod.__init__ = init
+
+    class Lock:
+        def __init__(self, inner):
+            self.inner = inner
+
+        def __enter__(self):
+            if C.mode == "sched" and C.tid() is not None:
+                while not self.inner.acquire(blocking=False):
+                    C.point("lock_spin")
+            else:
+                self.inner.acquire()
+            C.point("lock")
+            return self
+
+        def __exit__(self, *a):
+            C.point("unlock")
+            self.inner.release()
+
+    ccffi.lock = Lock(ccffi.lock)
+
+    orig_alloc = tmod.allocate_taco_structure
+
+    def alloc(*a, **kw):
+        r = orig_alloc(*a, **kw)
+        C.point("alloc", sid=id(r))
+        return r
+
+    tmod.allocate_taco_structure = alloc
+    orig_own = tmod.take_ownership_of_arrays
+
+    def own(t):
+        C.point("own", sid=id(t))
+        return orig_own(t)
+
+    tmod.take_ownership_of_arrays = own
+    return C
+
+
+def _conc_inputs(req):
+    return {n: _tensor(spec) for n, spec in req["inputs"].items()}
+
+
+def _conc_call(req):
+    from tensora.compile import _porcelain as porc
+
+    fn = porc.evaluate_cffi if req["backend"] == "cffi" else porc.evaluate_tensora
+    return fn(req["text"], req["output_format"], **_conc_inputs(req))
+
+
+def op_concurrency(task):
+    """Runs rounds of concurrent evaluate calls: free-running (events recorded) or under a given schedule."""
+    import sys as _sys
+    import threading
+
+    import tensora.compile._porcelain as porc
+
+    C = _install_conc()
+    reqs = task["requests"]          # name -> request
+    alone = {}
+    C.mode = "free"
+    for name, rq in reqs.items():    # sequential reference results (the recorder ignores threads without a tid)
+        alone[name] = _raw(_conc_call(rq))
+    _sys.setswitchinterval(1e-6)
+    rounds_out = []
+    for rnd in task["rounds"]:
+        sys.stdout.write("@@" + json.dumps({"id": task["id"], "progress": rnd["rid"]}) + "\n")
+        sys.stdout.flush()
+        porc.cachable_tensor_method.cache_clear()
+        for name in rnd.get("warm", []):
+            _conc_call(reqs[name])
+        C.events = []
+        C.done = set()
+        threads = rnd["threads"]     # list of [tid, request name]
+        results, errors, keep = {}, {}, []
+
+        def body(tid, name):
+            C.tl.tid = tid
+            if C.mode == "sched":
+                C.point("start")
+            try:
+                r = _conc_call(reqs[name])
+                keep.append(r)
+                raw = _raw(r)
+                results[tid] = raw
+                C.point("ret", same=(raw == alone[name]))
+            except Exception as e:  # noqa: BLE001
+                errors[tid] = f"{type(e).__name__}: {e}"[:200]
+            finally:
+                if C.mode == "sched":
+                    with C.rec_lock:
+                        C.done.add(tid)
+                    C.arrived.release()
+
+        ths = [threading.Thread(target=body, args=(tid, name)) for tid, name in threads]
+        if rnd.get("schedule") is None:
+            C.mode = "free"
+            barrier = threading.Barrier(len(ths))
+            ths = [threading.Thread(target=lambda tid=tid, name=name: (barrier.wait(), body(tid, name))) for tid, name in threads]
+            for t in ths:
+                t.start()
+            for t in ths:
+                t.join(timeout=120)
+            hung = any(t.is_alive() for t in ths)
+        else:
+            C.mode = "sched"
+            C.sem = {tid: threading.Semaphore(0) for tid, _ in threads}
+            C.arrived = threading.Semaphore(0)
+            for t in ths:
+                t.start()
+            hung = False
+            for _ in threads:
+                if not C.arrived.acquire(timeout=60):
+                    hung = True
+            order = list(rnd["schedule"])
+            live = [tid for tid, _ in threads]
+            steps = 0
+            while not hung and len(C.done) < len(threads):
+                tid = order.pop(0) if order else next(t for t in live if t not in C.done)
+                if tid in C.done:
+                    continue
+                C.sem[tid].release()
+                if not C.arrived.acquire(timeout=60):
+                    hung = True
+                steps += 1
+                if steps > 5000:
+                    hung = True
+            C.mode = "free"
+            for tid, _ in threads:      # release anything still parked
+                C.sem[tid].release()
+            for t in ths:
+                t.join(timeout=10)
+        rounds_out.append({"rid": rnd["rid"], "events": [e for e in C.events if e["ev"] not in ("start", "lock_spin")],
+                           "same": {str(tid): results.get(tid) == alone[name] for tid, name in threads},
+                           "errors": {str(k): v for k, v in errors.items()}, "hung": hung})
+        keep.clear()
+    return {"rounds": rounds_out}
+
+
+OPS["concurrency"] = op_concurrency
